@@ -318,10 +318,21 @@ func runC12(r *Run) {
 		rep := map[*ssa.Return]bool{}
 		n := 0
 		q := &PathQuery{P: p, Fn: rf}
+		q.Step = func(in ssa.Instruction, deferred bool, st uint64, c *PathCtx) (uint64, bool) {
+			if call, isC := in.(*ssa.Call); isC && callsFn(call, dm) {
+				return st | 1, false
+			}
+			return st, false
+		}
 		q.AtReturn = func(ret *ssa.Return, st uint64, c *PathCtx) {
 			n++
 			v := c.Resolve(deref(c.Resolve(ret.Results[idx])))
-			ok := isNilConst(v)
+			ok := isNilConst(v) && st&1 == 1
+			if isNilConst(v) && st&1 == 0 && !rep[ret] {
+				rep[ret] = true
+				rr.ViolationPath(rf, instrPos(ret), "success without Decode", "ReadFrom reports success on a path that never decodes what was read: the client's reader then processes whatever its reused Message still holds from an earlier datagram (delivered a second time, or an undecodable datagram delivered after all)", c.Witness(rf, ret))
+				return
+			}
 			if call, isC := v.(*ssa.Call); isC && callsFn(call, dm) {
 				ok = true
 			}
@@ -346,6 +357,8 @@ func runC12(r *Run) {
 		checkDecodeReset(r, dc, cl.DecodeM, FieldVar(cl.Message, "Attributes"))
 		dc.Done()
 	}
+	// the handler runs after the agent lock is released: a handler that starts a follow-up transaction must not block delivery (shared with C13)
+	r.Borrow("C13", map[string]string{"C13.order": "C12.order"})
 }
 
 // structArgKey: key of field `name` of a struct-typed call argument (a load of a local alloc, or a parameter/value struct).
